@@ -259,6 +259,8 @@ impl Prop for C01 {
     let ev = |e: &Env, o: &mut Out, s: &str, cs: &Case| self.eval(e, o, s, cs);
     match t {
       "sweep" => {
+        // strided walks on fresh threads (see engine::stride_walks)
+        stride_walks(env, out, "roundtrip", env.tier.pick(1600, 48000) / nshards as u32, 7000 + shard as u64, 0, (crate::model::NDAYS as i64), 800, &|x| vec![x], &ev);
         let (lo, hi) = shard_range(NDAYS, shard, nshards);
         let mut rev = Reverse::new(50);
         for i in lo..hi {
